@@ -5,6 +5,11 @@ mcfloat  modulo_counter with FLOAT modulo / step pairs, including numeric
          the true one is not): the stream-start path, the numbers-only path and
          the closed form must agree - up to rounding, measured cyclically -
          for several wraps; also through sinusoid(freq, phase=stream)
+mcexact  exact arguments that no float can carry (non-dyadic Fractions, ints
+         beyond 2**53) in every numbers-vs-streams combination: every sample
+         equals the exact closed form and is not a float ("identically whether
+         its arguments are numbers or streams ... no drift in exact
+         arithmetic")
 """
 import itertools
 import math
@@ -12,7 +17,11 @@ from fractions import Fraction
 
 from audiolazy import modulo_counter, sinusoid, Stream
 
-KINDS = ("mcfloat",)
+KINDS = ("mcfloat", "mcexact")
+# exact values that no float carries: non-dyadic rationals, integers > 2**53
+EXACT = [Fraction(1, 10), Fraction(1, 3), Fraction(-2, 7), Fraction(22, 7),
+         10 ** 20 + 1, -(10 ** 18) - 3, Fraction(10 ** 17 + 1, 3), 3, 0,
+         Fraction(5, 6)]
 PAIRS = [(1.0, 0.1), (1.0, 0.2), (2.0, 0.4), (5.0, 0.1), (1.0, 0.3),
          (3.0, 0.7), (10.0, 0.1), (1.0, 1 / 3.0), (2.5, 0.05), (7.0, 0.35)]
 
@@ -32,6 +41,65 @@ def cases(ctx):
                     round(rng.uniform(0.01, m), 2)])
     yield ("mcfloat", m, s, rng.choice([0.0, round(rng.uniform(0, m), 3)]),
            rng.choice(["zero-stream", "numbers", "const-stream"]))
+  for c in exact_cases(ctx):
+    yield c
+
+
+def exact_cases(ctx):
+  rng = ctx.rng
+  for _ in ctx.loop(1200, 40000):
+    n = rng.randint(3, 40)
+    kinds = rng.choice(["SNN", "SSN", "SNS", "SSS", "NNN", "NSN", "NNS"])
+    start = [rng.choice(EXACT) for _ in range(n)] if kinds[0] == "S" else \
+        rng.choice(EXACT)
+    if kinds[0] == "S" and rng.random() < 0.5:
+      start = [start[0]] * n                    # a constant stream
+    mod = rng.choice([1, 7, Fraction(7, 3), 256, Fraction(1, 2), -5])
+    modulo = [mod] * n if kinds[1] == "S" else mod
+    st = rng.choice([Fraction(1, 10), 1, Fraction(-3, 7), 10 ** 18 + 3, 0,
+                     Fraction(7, 3), mod, 2 * mod])
+    step = [rng.choice([st, st, Fraction(1, 6), -1]) for _ in range(n)] \
+        if kinds[2] == "S" else st
+    yield ("mcexact", kinds, start, modulo, step, n,
+           rng.choice(["list", "iter", "stream", "repeat"]))
+
+
+def run_exact(ctx, case):
+  """Exact arguments (ints, Fractions): whether they arrive as numbers or as
+  streams, every sample is the exact value of the closed form - no float is
+  ever created, so nothing can drift."""
+  _, kinds, start, modulo, step, n, form = case
+
+  def arg(v):
+    if not isinstance(v, list):
+      return v
+    if form == "iter":
+      return iter(list(v))
+    if form == "stream":
+      return Stream(list(v))
+    if form == "repeat" and len(set(v)) == 1:
+      return itertools.repeat(v[0])
+    return list(v)
+  got = list(itertools.islice(iter(modulo_counter(arg(start), arg(modulo),
+                                                  arg(step))), n))
+  at = lambda v, k: v[k] if isinstance(v, list) else v
+  total = Fraction(0)
+  ctx.count("exact-modulo-counters")
+  ctx.count("exact-modulo-counters:" + kinds)
+  if len(got) != n:
+    ctx.violation("mcexact/length", case, got=len(got), want=n)
+    return True
+  for k in range(n):
+    m = Fraction(at(modulo, k))
+    want = (Fraction(at(start, k)) + total) % m
+    g = got[k]
+    if isinstance(g, float) or Fraction(g) != want:
+      ctx.violation("mcexact/%s-start/not-the-exact-closed-form" %
+                    ("stream" if kinds[0] == "S" else "number"), case,
+                    index=k, got=repr(g), want=str(want))
+      return True
+    total += Fraction(at(step, k))
+  return True
 
 
 def cyc(a, b, m):
@@ -40,6 +108,8 @@ def cyc(a, b, m):
 
 
 def run_case(ctx, case):
+  if case[0] == "mcexact":
+    return run_exact(ctx, case)
   _, m, s, start, how = case
   steps = int(m / s) if s else 1
   n = min(max(3 * steps + 5, 20), 600)
@@ -75,3 +145,6 @@ def run_case(ctx, case):
 def finish(ctx):
   ctx.need("float-modulo-counters", 200)
   ctx.need("float-modulo-counters-past-one-batch", 100)
+  ctx.need("exact-modulo-counters", 500)
+  for kinds in ("SNN", "SSN", "SNS", "SSS", "NNN", "NSN", "NNS"):
+    ctx.need("exact-modulo-counters:" + kinds, 30)
